@@ -1440,10 +1440,9 @@ def sensors_fans():
     """
     ret = collections.defaultdict(list)
     basenames = glob.glob('/sys/class/hwmon/hwmon*/fan*_*')
-    if not basenames:
-        # CentOS has an intermediate /device directory:
-        # https://github.com/giampaolo/psutil/issues/971
-        basenames = glob.glob('/sys/class/hwmon/hwmon*/device/fan*_*')
+    # CentOS has an intermediate /device directory:
+    # https://github.com/giampaolo/psutil/issues/971
+    basenames.extend(glob.glob('/sys/class/hwmon/hwmon*/device/fan*_*'))
 
     basenames = sorted({x.split("_")[0] for x in basenames})
     for base in basenames:
